@@ -37,10 +37,11 @@ for c in $checks; do
   case "$c" in *:thorough) tier=thorough; c="${c%%:*}";; esac
   o=$(VERIF_REPO="$d" ./check "$c" "$tier" 2>&1)
   rc=$?
+  echo "$o" >> "$stamp"
   echo "check $c $tier against the change: exit $rc" >> "$res"
   echo "$o" | grep -E "^(VIOLATION|  \[)" | head -4 | cut -c1-400 >> "$res"
 done
 rm -rf evidence; mv /tmp/vseed-evidence.$$ evidence 2>/dev/null
-find /verif/replays -type f -newer "$stamp" -print0 2>/dev/null | xargs -0 -r rm -f
+grep -ho 'replay=/verif/replays/[^ ]*' "$stamp" | sed 's/^replay=//' | sort -u | xargs -r rm -f
 cat "$res"
 rm -f "$stamp"
